@@ -72,12 +72,14 @@ def _appended_templates(A, cls):
                         and a.func.attr == 'format':
                     tmpl = A.try_fold(a.func.value, m)
                     if tmpl is None and isinstance(a.func.value, ast.Name):
-                        # fmt = 'on "{}"\n' if .. else 'off "{}"\n'
+                        # fmt = 'on "{}"\n' if .. else 'off "{}"\n', or the
+                        # same as an if statement: every binding of the local
                         for n in walk_own(m.node):
                             if isinstance(n, ast.Assign) and \
-                                    norm(n.targets[0]) == a.func.value.id and \
-                                    isinstance(n.value, ast.IfExp):
-                                for br in (n.value.body, n.value.orelse):
+                                    norm(n.targets[0]) == a.func.value.id:
+                                brs = [n.value.body, n.value.orelse] \
+                                    if isinstance(n.value, ast.IfExp) else [n.value]
+                                for br in brs:
                                     out.append((m, A.try_fold(br, m), c, a))
                                 tmpl = 'SKIP'
                     if tmpl != 'SKIP':
